@@ -78,13 +78,13 @@ EXTRA_HEADERS = [
 ]
 
 
-def render(boundary, nl, parts, pre=None, epi=b"", first_pad=b"", close_pad=b"", trailing_nl=True):
+def render(boundary, nl, parts, pre=None, epi=b"", first_pad=b"", close_pad=b"", trailing_nl=True, inner_pad=b""):
     """parts: list of (name, filename|None, headers[list of bytes], payload, bodyless)"""
     out = b""
     first = True
     for name, fn, hdrs, payload, bodyless, *style in parts:
         lead = (pre + nl) if (first and pre is not None) else (b"" if first else nl)
-        out += lead + b"--" + boundary + (first_pad if first else b"") + nl
+        out += lead + b"--" + boundary + (first_pad if first else inner_pad) + nl
         first = False
         cd = b'form-data; name="' + name.encode() + b'"'
         if fn is not None:
@@ -133,7 +133,12 @@ def rand_body(rng, boundary=None, nl=None):
                           b"x --" + boundary + b"X", b"--" + boundary + b" junk" + nl + b"--" + boundary + b"-"])
     epi = rng.choice([b"", b"", b"epilogue", nl, b"--" + boundary + nl]) if rng.random() < 0.4 else b""
     close_pad = rng.choice([b"", b"", b" ", b"\t "])
-    return boundary, render(boundary, nl, parts, pre=pre, epi=epi, close_pad=close_pad, trailing_nl=rng.random() < 0.85)
+    # RFC 2046 transport padding on delimiter lines, of any length (F01c, repaired by f636614: a first
+    # delimiter with padding longer than the retained search tail)
+    pads = [b"", b"", b"", b" ", b"\t ", b" " * 7, b" " * 9, b" \t" * 10, b" " * 40, b"\x0b\x0c "]
+    first_pad, inner_pad = rng.choice(pads), rng.choice(pads[:6])
+    return boundary, render(boundary, nl, parts, pre=pre, epi=epi, close_pad=close_pad, trailing_nl=rng.random() < 0.85,
+                            first_pad=first_pad, inner_pad=inner_pad)
 
 
 def fixed_corpus():
@@ -225,24 +230,6 @@ def parts_of(events):
     return [(p[0], p[1]) for p in parts]
 
 
-def first_delim_span(boundary, body):
-    rx = re.compile(rb"(?:\r\n|\n|\r)?--" + re.escape(boundary) + rb"(--[^\S\n\r]*(?:\r\n|\n|\r)?|[^\S\n\r]*(?:\r\n|\n|\r))")
-    return rx.search(body)
-
-
-def is_f01c(boundary, body, cuts):
-    """known finding F01c: the first delimiter is not the closing one, is longer than
-    len(boundary) + SEARCH_EXTRA_LENGTH because of transport padding, and a chunk ends inside it"""
-    from werkzeug.sansio.multipart import SEARCH_EXTRA_LENGTH
-
-    m = first_delim_span(boundary, body)
-    if m is None or m.group(1).startswith(b"--"):
-        return False
-    if m.end() - m.start() <= len(boundary) + SEARCH_EXTRA_LENGTH:
-        return False
-    return any(m.start() < c < m.end() for c in cuts)
-
-
 # --------------------------------------------------------------------------
 
 
@@ -251,7 +238,14 @@ class KernelStream(Stream):
     ALPHA = [b"\r", b"\n", b"\r\n", b"-", b"--", b"--bound", b"--boun", b"bound", b" ", b"\t", b"\x0b", b"\x0c", b"x", b":", b"\r\n\r\n", b"\n\n", b"\r\r", b"--bound--", b"\r\n--bound", b"\x00", b"\xff", b"\x1c", b"\x85", b"a: b"]
     corpus = [{"b": hx(b"bound"), "buf": hx(x), "pos": 0} for x in [b"", b"\r", b"\n", b"\r\n", b"--bound", b"--bound--", b"--bound\r\n", b"\r\n--bound--", b"\r\n--bound \t\r", b"x\r\n--bound\x0b\x0c\n", b"\r\r\n--bound\r", b"a\r\n b\r\n\tc\rd\n e", b"\r\n\r", b"\r\r", b"\n\r\n", b"--bound" + b" " * 20 + b"\r\n"]] + [
         {"b": hx(b"bound"), "buf": hx(b"xx\r\n--bound  \r\nrest"), "pos": p} for p in range(0, 12)
-    ]
+    ] + [
+        # the search position kept after a failed PREAMBLE search (F01c repair): pending `--bound` with
+        # padding, several occurrences, none, position beyond the buffer
+        {"b": hx(b"bound"), "buf": hx(buf), "pos": p}
+        for buf in [b"x" * 30 + b"\r\n--bound" + b" " * 12, b"--bound" + b" " * 20, b"x" * 40, b"--boundX" + b"y" * 20 + b"\n--bound\t\t" + b"z" * 3,
+                    b"y" * 25 + b"--bound-", b"y" * 25 + b"\r\n--boun", b"--bound --bound  --bound   "]
+        for p in (0, 1, 9, 17, 31, 33, 60)
+    ] + [{"b": hx(b"--"), "buf": hx(b"x" * 20 + b"\r\n-----"), "pos": p} for p in (0, 12, 21, 22, 23)]
 
     def cases(self, rng, tier):
         n = 5000 if tier == "quick" else 40000
@@ -289,8 +283,20 @@ class KernelStream(Stream):
                 "lines=" + out_list(hx(x) for x in buf.splitlines()),
                 "strip=" + hx(buf.strip()),
                 "find=" + b01(buf.find(b"--" + bd) != -1),
+                "rfind=" + (lambda r: "~" if r == -1 else str(r))(buf.rfind(b"--" + bd, pos)),
+                "nsp=" + self.next_search_position(mp, bd, buf, pos),
             ]
         )
+
+    @staticmethod
+    def next_search_position(mp, bd, buf, pos):
+        """the `_search_position` a real decoder keeps when `preamble_re` finds nothing in `buf` searched
+        from `pos` (the rule repaired for F01c); `~` when there is a match"""
+        d = mp.MultipartDecoder(bd)
+        d.buffer = bytearray(buf)
+        d._search_position = pos
+        d.next_event()
+        return str(d._search_position) if d.state == mp.State.PREAMBLE else "~"
 
     def model_line(self, case):
         return line("mp.kernels", case["b"], case["buf"], case["pos"])
@@ -403,10 +409,17 @@ class SplitStream(Stream):
         self._single = {}
         self.fixed = fixed_corpus()
         self.corpus = []
-        # regressions F01a / F01b at the formerly failing offsets, and the whole F01c family member
+        # regressions F01a / F01b at the formerly failing offsets, and F01c (fixed by f636614) at every
+        # split offset of the padded first delimiter and around it; longer padding, a preamble in front,
+        # bare-LF / bare-CR line breaks
         self.corpus.append(self.mk(*F01A, [97]))
         self.corpus += [self.mk(*F01B, [i]) for i in range(53, 62)]
-        self.corpus += [self.mk(*F01C, [i]) for i in (5, 13, 14, 20, 27, 28, 29)]
+        self.corpus += [self.mk(*F01C, [i]) for i in range(1, 32)]
+        self.corpus += [self.mk(*F01C, [i, j]) for i in (8, 14, 20) for j in (21, 27, 28)]
+        for pad, pre, nl in [(b" " * 60, None, b"\r\n"), (b"\t \x0b" * 9, b"preamble" * 4, b"\r\n"), (b" " * 25, b"x" * 30, b"\n"), (b" " * 25, b"", b"\r")]:
+            body = render(b"bound", nl, [("a", None, [], b"v", False)], pre=pre, first_pad=pad)
+            off = body.index(b"--bound")
+            self.corpus += [self.mk(b"bound", body, [i]) for i in range(max(1, off - 2), off + 7 + len(pad) + 3)]
         self.corpus.append(self.mk(*F01A, []))
         self.corpus.append(self.mk(b"bound", b"--bound--", []))
         self.corpus.append(self.mk(b"bound", b"", []))
@@ -502,11 +515,6 @@ class SplitStream(Stream):
             return f"{len(got)} parts instead of {len(whole_parts)}"
         return None
 
-    def finding_key(self, case, what):
-        if is_f01c(unhx(case["b"]), unhx(case["body"]), case["cuts"]):
-            return "F01c"
-        return None
-
     def nontrivial(self, case, real_out):
         return bool(case["cuts"]) and ("F:" in real_out or "U:" in real_out)
 
@@ -566,6 +574,8 @@ class FormStream(Stream):
     def __init__(self):
         self._single = {}
         self.corpus = [self.mk(*F01A, 97, []), self.mk(*F01B, 55, []), self.mk(*F01A, 5, [3, 1, 2])]
+        # F01c (fixed): reads that end inside the padding of the first delimiter
+        self.corpus += [self.mk(*F01C, bs, []) for bs in (14, 17, 20, 27)] + [self.mk(*F01C, 64, [20, 3, 1])]
 
     @staticmethod
     def mk(boundary, body, bufsize, sched, wf=True):
@@ -610,20 +620,6 @@ class FormStream(Stream):
             return f"form/files with buffer_size={case['bs']} sched={case['sched'][:8]} differ from one full read: {real_out[:120]} vs {whole[:120]}"
         return None
 
-    def finding_key(self, case, what):
-        body = unhx(case["body"])
-        chunks, pos, i = [], 0, 0
-        cuts = []
-        while pos < len(body):
-            n = case["bs"]
-            if i < len(case["sched"]):
-                n = min(n, max(1, case["sched"][i]))
-            i += 1
-            pos += n
-            if pos < len(body):
-                cuts.append(pos)
-        return "F01c" if is_f01c(unhx(case["b"]), body, cuts) else None
-
     def bucket(self, case, real_out):
         if real_out.startswith("EXC"):
             return real_out
@@ -645,7 +641,7 @@ CHECK = Check(
         "parse_options_header is modelled in Model/FormOptions.lean for token / quoted parameters and RFC 2231 numbered continuations; the charset form key*=utf-8''... is outside the model (never generated)",
         "header names are compared with ASCII lower-casing (Python uses str.lower); header lines are decoded with Lean core's strict UTF-8 decoder",
         "boundaries contain no CR / LF (hypothesis BoundaryOk of the theorems; FormDataParser takes the boundary from a header parameter)",
-        "known finding F01c: transport padding on the first delimiter longer than the retained search tail; theorems carry the explicit bound, the negation witness is proved",
+        "F01c (transport padding on the first delimiter longer than the retained search tail) is repaired by f636614; the repaired search-position rule is modelled (nextSearchPos) and proved sound without a padding bound",
     ],
     trusted_extra=["CPython re / bytes / str semantics for the modelled primitives (validated by stream regex-kernels, not verified)"],
     quick_budget=20000,
@@ -653,8 +649,8 @@ CHECK = Check(
 )
 
 MANIFEST = {
-    "level_text": "Machine-checked Lean 4 theorems about an executable model of MultipartDecoder (hand-written leftmost matchers for the five compiled regexes, last_newline, _parse_data, next_event, MultiPartParser.parse): the hold-back kernel of DATA/DATA_START is proved chunk-independent for every buffer, continuation and chunk list; the retained search position is proved irrelevant under the explicit padding bound; and for every body made of a preamble (anything in which preamble_re does not match), parts with arbitrary accepted header blocks (folded lines, odd white space, any line breaks inside the block) and an epilogue, with CRLF, bare-LF or bare-CR delimiter lines (payloads free of the other newline kind), every chunking decodes to the same parts as the single-shot decode, and MultiPartParser.parse returns the same fields and files for every buffer size and read schedule (whole run: PREAMBLE, PART, DATA_START, DATA, EPILOGUE). The model is tied to the code by differential streams over every 2-way (thorough: 3-way) split of a corpus, byte-at-a-time and random k-way splits, and the property oracle runs on the real decoder and MultiPartParser.",
-    "level_note": "Trusted: Lean kernel; extract.py; the correspondence harness; CPython re/bytes/str for the modelled primitives. Known finding F01c (padding on the first delimiter). Whole-body chunk independence is proved for bodies with one line-break convention on all delimiter lines (CRLF / bare LF / bare CR) and no transport padding on them; mixed conventions between delimiter lines, padding on inner delimiter lines and header blocks starting with white space are covered by the kernel theorems and the streams only (OPEN).",
+    "level_text": "Machine-checked Lean 4 theorems about an executable model of MultipartDecoder (hand-written leftmost matchers for the five compiled regexes, last_newline, _parse_data, next_event, MultiPartParser.parse): the hold-back kernel of DATA/DATA_START is proved chunk-independent for every buffer, continuation and chunk list; the retained search position (rule repaired for F01c: lowered to the last pending --boundary) is proved irrelevant for every buffer and continuation, with no bound on transport padding; and for every body made of a preamble (anything in which preamble_re does not match), parts with arbitrary accepted header blocks (folded lines, odd white space, any line breaks inside the block) and an epilogue, with CRLF, bare-LF or bare-CR delimiter lines (payloads free of the other newline kind), every chunking decodes to the same parts as the single-shot decode, and MultiPartParser.parse returns the same fields and files for every buffer size and read schedule (whole run: PREAMBLE, PART, DATA_START, DATA, EPILOGUE). The model is tied to the code by differential streams over every 2-way (thorough: 3-way) split of a corpus, byte-at-a-time and random k-way splits, and the property oracle runs on the real decoder and MultiPartParser.",
+    "level_note": "Trusted: Lean kernel; extract.py; the correspondence harness; CPython re/bytes/str for the modelled primitives. Whole-body chunk independence is proved for bodies with one line-break convention on all delimiter lines (CRLF / bare LF / bare CR) and any amount of transport padding on them; mixed conventions between delimiter lines and header blocks starting with white space are covered by the kernel theorems and the streams only (OPEN).",
     "technique": "Lean 4 proof (induction over byte lists / chunk lists) + model/code correspondence",
     "design_ref": "DESIGN.md section 4, C01",
 }
